@@ -238,6 +238,25 @@ def oracle_k(it):
     return True, name
 
 
+def k_in_double_range(c):
+    """kr and K = kf / kr, written in the units system of kf (where the implementation computes them), stay well inside binary64's normal range:
+    decided on the case, not on what the implementation returned"""
+    if tuple(c["kf_dim"]) != sysgen.kdim(c["n"]) or tuple(c["kr_dim"]) != sysgen.kdim(c["m"]):
+        return True
+    def given(q, dim):
+        return (Fr(q["bare"]), c["units"]) if "bare" in q else (Fr(q["v"]), q["sys"])
+    (vf, sf), (vr, sr) = given(c["kf"], c["kf_dim"]), given(c["kr"], c["kr_dim"])
+    tabs = (si.SI_SPACE, si.SI_TIME, si.SI_AMOUNT)
+    vals, f = [], Fr(1)
+    for tab, a, b, e in zip(tabs, sr, sf, c["kr_dim"]):      # compute_conversion_factor: one power per base unit, multiplied up in this order
+        p = (tab[a] / tab[b]) ** e
+        f *= p
+        vals += [p, f]
+    kr_in_f = vr * f
+    vals += [kr_in_f] + ([vf / kr_in_f] if kr_in_f != 0 else [])
+    return all(v == 0 or Fr(10) ** -280 < abs(v) < Fr(10) ** 280 for v in vals)
+
+
 def emit_k(c, o):
     def gq(q, dim):
         return sysgen.g_qty(q, c["units"], dim)
@@ -317,14 +336,11 @@ def check(run):
     ks = [make_k_case(rng) for _ in range(600 if quick else 20000)]
     items = []
     for c in ks:
-        o = observe_k(c)
-        try:
-            if isinstance(o.get("K"), str) and "OverflowError" in o["K"]:
-                raise ValueError("overflow")
-            gc, go = emit_k(c, o)
-        except ValueError:
-            run.count("constants:discarded_binary64_overflow")      # unit exponents up to 21 between extreme prefixes overflow the double range
+        if not k_in_double_range(c):
+            run.count("constants:discarded_outside_binary64_range")  # unit exponents up to 21 between extreme prefixes leave the double range
             continue
+        o = observe_k(c)
+        gc, go = emit_k(c, o)
         items.append({"case": c, "obs": o, "gcase": gc, "gobs": go, "nontrivial": True})
         run.count("orders:%s" % ("low" if c["n"] + c["m"] <= 4 else "high"))
         run.count("constants:" + ("rejected" if "raised" in o else "accepted"))
